@@ -69,6 +69,8 @@ const P_DATA_WITHOUT_STATUS: usize = 33;
 struct Decoder {
     status: u8, // 0 = no running status
     d1: Option<u8>,
+    /// a status byte was seen since the last completed message
+    fresh: bool,
 }
 
 #[derive(Clone, Copy, Debug)]
@@ -92,6 +94,7 @@ impl Decoder {
         if b >= 0x80 {
             self.status = b;
             self.d1 = None;
+            self.fresh = true;
             return None;
         }
         if self.status == 0 {
@@ -324,7 +327,9 @@ impl Exec {
                 ctx.check(4, "voice_tracks_held_keys", note_side, || describe("note message"));
             }
             if on_ch && (kind == 0xB || kind == 0xE) {
-                ctx.check(18, "controller_routing", ctl_side, || describe("controller message"));
+                // routed controllers land on their output, every other controller number changes nothing at all
+                // (All Notes Off, CC 123, is the one controller that legitimately touches the note side)
+                ctx.check(18, "controller_routing", ctl_side && note_side, || describe("controller message"));
             }
         }
     }
@@ -422,13 +427,15 @@ impl Engine for MidiEngine {
                 if b < 0x80 && ex.m.dec.status == 0 {
                     ctx.probe(P_DATA_WITHOUT_STATUS);
                 }
-                let had_status_byte = ex.m.dec.d1.is_none() && pre_kind == 1;
                 real!(ex.rx.parse(b));
                 let rising_before = ex.m.rising;
                 let falling_before = ex.m.falling;
                 let completed = ex.m.dec.feed(b);
+                let was_fresh = ex.m.dec.fresh;
+                if completed.is_some() {
+                    ex.m.dec.fresh = false;
+                }
                 if let Some(msg) = completed {
-                    let _ = had_status_byte;
                     let m = &mut ex.m;
                     if msg.status & 0x0F == m.ch {
                         match msg.status >> 4 {
@@ -526,9 +533,6 @@ impl Engine for MidiEngine {
                             ex.bend_hist.push((ex.m.bend, ex.rx.pitch_bend().to_bits()));
                         }
                     }
-                    if completed.map(|m| m.status).unwrap_or(0) != 0 && !had_status_byte {
-                        // (status byte came earlier than the previous byte: running status or split message)
-                    }
                 }
                 // ---------------- clean twin
                 if ex.twin_ok {
@@ -580,7 +584,7 @@ impl Engine for MidiEngine {
                         });
                     }
                 }
-                if completed.is_some() && pre_kind != 0 {
+                if completed.is_some() && !was_fresh {
                     ctx.probe(P_RUNNING_STATUS_MSG);
                 }
                 let m = &ex.m;
